@@ -54,6 +54,8 @@ class StrEval:
                 return Opaque(r['n'])
             if 'cv' in n:
                 return n['cv']
+            if r['n'].startswith('std::') and r['n'].endswith('::npos'):
+                return -1                       # what str.find gives here for "not found"
             if r['k'] == 'Enum':
                 for q, (en, val) in self.p.enumerators.items():
                     if q == r['n']:
